@@ -180,7 +180,7 @@ fn generate(v: &str, st: &mut Stats) {
 pub fn run(tier: Tier) -> i32 {
     let mut rep = Report::new("C09", tier);
     crate::engine::start_watchdog("C09", std::time::Duration::from_secs(60));
-    let k = tier.pick(6, 8);
+    let k = tier.pick(6, 7);
     let mut st = Stats::default();
     // (i) every content between each delimiter pair
     for d in ['\'', '"', '`'] {
